@@ -215,6 +215,62 @@ fn run(ctx: &mut Ctx) {
         ctx.exhaustive(&format!("U1-{} x anchors", name), u.subset_count() * 3, &|i| Case::new(u.subset(i / 3 + 1), c3[(i % 3) as usize].clone()), &case_fn);
     }
 
+    // case-insensitive + disabled end anchor: letters that lower-case differently but fold together
+    // (σ/ς, s/ſ, K/k/KELVIN) make the self-check and the final (?i) pattern disagree if either is
+    // handled case-sensitively
+    let total_c = ctx.tier.pick(12_000, 200_000);
+    let strat_c = move || {
+        (case_strategy(&["cased", "cased", "abc"], false, W_PREFIX, 6, 3, fix), 0u8..4, any::<bool>())
+            .prop_map(|(mut c, a, x)| {
+                c.cfg.ignore_case = true;
+                c.cfg.verbose = x;
+                c.cfg.no_end = true;
+                c.cfg.no_start = a == 0;
+                c
+            })
+            .boxed()
+    };
+    ctx.generated("gen-case", &strat_c, total_c, &|s, c, st| {
+        count_pool(c, st);
+        case_fn(s, c, st)
+    });
+    // Greek words: final sigma lower-cases to ς, medial to σ, and (?i) folds them together
+    let greek: Vec<Vec<&str>> = vec![
+        vec!["ΟΔΟΣ", "ΟΔΟΣ ΑΘΗΝΑΣ", "ΟΔΟΣΗΜΑ"],
+        vec!["ΣΑΣ", "ΣΑΣΑ", "ΣΑ"],
+        vec!["ΑΣ", "ΑΣΑΣ", "ασ", "ας"],
+        vec!["Sſ", "SſS", "ſ", "s"],
+    ];
+    let mut gcases = vec![];
+    for g in &greek {
+        for (x, ns) in [(false, false), (true, false), (false, true), (true, true)] {
+            let mut cfg = Cfg::default();
+            cfg.ignore_case = true;
+            cfg.verbose = x;
+            cfg.no_end = true;
+            cfg.no_start = ns;
+            gcases.push(Case::new(g.iter().map(|s| s.to_string()).collect(), cfg));
+        }
+    }
+    ctx.fixed("sigma-families", &gcases, &case_fn);
+    // long class-converted test cases: the internal self-check cannot compile its expression
+    let mut big = vec![];
+    for n in [300usize, 700] {
+        for flags in [vec![0usize, 4], vec![4], vec![2, 5]] {
+            for ns in [false, true] {
+                let mut cfg = Cfg::default();
+                for f in &flags {
+                    *cfg.flag_mut(*f) = true;
+                }
+                cfg.no_end = true;
+                cfg.no_start = ns;
+                big.push(Case::new(vec!["a".into(), "1b".into(), format!("a{}!", "xy".repeat(n / 2))], cfg.clone()));
+                big.push(Case::new(vec!["ab".into(), format!("ab{}", "c".repeat(n)), "abd".into()], cfg));
+            }
+        }
+    }
+    ctx.fixed("large-fixed", &big, &case_fn);
+
     let total = ctx.tier.pick(30_000, 600_000);
     let max_ops = ctx.tier.pick(6, 10);
     let strat = move || {
